@@ -31,6 +31,13 @@ def run(tier):
     for g in rndc.sample(cmps, min(len(cmps), 3000 if tier == "thorough" else 400)):
         name, opts = lin_cfgs[rndc.randrange(len(lin_cfgs))]
         cases.append({"id": len(cases), "gen": g, "cfgname": name, "opts": list(opts)})
+    # products of functional expressions with either sign of the coefficient, under the configurations that keep
+    # the quadratic term and linearise the functions (which half of a function's definition is kept depends on
+    # the context the product hands down)
+    prods = [g for g in gen if g["kind"] == "prod"]
+    for g in rndc.sample(prods, min(len(prods), 3000 if tier == "thorough" else 500)):
+        name, opts = lin_cfgs[rndc.randrange(len(lin_cfgs))]
+        cases.append({"id": len(cases), "gen": g, "cfgname": name, "opts": list(opts)})
     recs, stats = cvtcases.run_and_record(exe, PID, cases)
     res = validate_parallel("TraceReform", "TraceReform.cfg", recs, os.path.join(SPECS, "flat"), "c01")
     verdicts = [v for r in res for v in printed_json(r, "VERDICT")]
